@@ -77,7 +77,8 @@ func VerifParseFrame(proto byte, raw []byte, comp Compressor) (*VerifParsed, err
 	if err != nil {
 		return nil, err
 	}
-	h := fr.Header()
+	// the iterator reads warnings etc. from the framer's header (a rows frame does not carry one)
+	h := *f.header
 	p := &VerifParsed{Kind: fmt.Sprintf("%T", fr), Version: byte(h.version), Flags: h.flags, Stream: h.stream, Op: byte(h.op), Length: h.length,
 		TraceID: f.traceID, Warnings: h.warnings, Payload: f.customPayload, Unread: len(f.buf)}
 	switch x := fr.(type) {
